@@ -18,6 +18,7 @@ mod fdtxml;
 mod c06;
 mod c07;
 mod c08;
+mod c09;
 mod chan;
 
 #[global_allocator]
@@ -71,6 +72,7 @@ fn main() {
             "C06" => c06::replay(&v["replay"]),
             "C07" => c07::replay(&v["replay"]),
             "C08" => c08::replay(&v["replay"]),
+            "C09" => c09::replay(&v["replay"]),
             _ => {
                 eprintln!("no replay for {}", id);
                 std::process::exit(2);
@@ -95,6 +97,7 @@ fn main() {
             "C06" => c06::run(thorough),
             "C07" => c07::run(thorough),
             "C08" => c08::run(thorough),
+            "C09" => c09::run(thorough),
             other => {
                 eprintln!("unknown check {}", other);
                 2
